@@ -241,6 +241,12 @@ class PoolEngine(HistEngine):
             src = os.path.join(C.REPO, "grpcgcp", f)
             dst = os.path.join(scratch, "clock_" + f)
             text = open(src).read().replace("time.Now()", "verifNow()")
+            # every other way the code could consult or wait for the wall clock goes through the harness's
+            # virtual clock as well: a wait capped by a timer, or by counting ticker ticks, then shows as a
+            # divergence when the harness advances the virtual clock under a blocked call
+            for a, b in (("time.NewTicker(", "verifNewTicker("), ("time.NewTimer(", "verifNewTimer("),
+                         ("time.After(", "verifAfter("), ("time.Since(", "verifSince("), ("time.Until(", "verifUntil(")):
+                text = text.replace(a, b)
             if f == "gcp_picker.go":
                 # yield point between the pool-size check and newSubConn() (same line: line numbers are preserved)
                 if "\t\tp.gb.newSubConn()\n" in text:
